@@ -186,7 +186,7 @@ theorem paramOpts_longs (ps : List Param) :
 
 theorem optsOk_optTable {ps : List Param} (h : paramsOk ps = true) : optsOk (optTable ps) = true := by
   simp only [paramsOk, Bool.and_eq_true, List.all_eq_true] at h
-  obtain ⟨⟨⟨hid, hdis⟩, hhelp⟩, _⟩ := h
+  obtain ⟨⟨⟨⟨hid, hdis⟩, hhelp⟩, _⟩, _⟩ := h
   have hdis := (distinctB_iff _).mp hdis
   simp only [optsOk, Bool.and_eq_true, distinctB_iff]
   constructor
